@@ -36,11 +36,13 @@ ABSENT = {'v': 'absent', 'kids': ()}
 UNLOADABLE = {'v': 'unloadable', 'kids': ()}
 LOST = {'v': 'lost', 'kids': ()}
 BLOBREC = {'v': 'blobrec', 'kids': ()}
-DEVIATIONS = ('AliasCreating', 'SpBlobByName', 'InvalidateDoomed', 'LeakUnstored')
+DEVIATIONS = ('AliasCreating', 'SpBlobByName', 'InvalidateDoomed', 'LeakUnstored', 'AddBeforeJoin', 'ImportNotCreating')
 COMMIT_END = ('Finish', 'FinishThenFail', 'FailBegun', 'StoreRaises', 'StoreConflict', 'CommitSpConflict', 'CommitSpRaises',
               'CommitSpStoreRaises', 'FailStored', 'FailVoted')
 FAILURES = ('FailBeforeBegin', 'FailBegun', 'StoreRaises', 'StoreConflict', 'CommitSpConflict', 'CommitSpRaises', 'FailStored',
-            'FailVoted', 'FinishThenFail', 'SavepointRaises', 'CommitSpStoreRaises')
+            'FailVoted', 'FinishThenFail', 'SavepointRaises', 'CommitSpStoreRaises', 'BeginFails', 'AddWhileFailed')
+IDLE_FAILURES = ('FailBeforeBegin', 'BeginFails')      # failing commits that are one action: the caller's abort follows
+WATCHDOG_S = 30
 # which deviation of the code makes a clause of `mon` possible (the design, all four cleared, satisfies every clause)
 CLAUSE_DEVIATION = {'state-lost': 'InvalidateDoomed', 'owned-uncommitted': 'LeakUnstored',
                     'rollback-owner': 'AliasCreating', 'rollback-value': 'SpBlobByName'}
@@ -64,11 +66,11 @@ PRE = {(): 'PreNone', ('a',): 'PreA', ('a', 'b'): 'PreAB'}
 
 def consts(Obj=('a', 'b'), Blobs=(), Val=('v0', 'v1'), Edges='EdgesFlat', Pre=(), MaxSp=0, MaxCommit=1, MaxOther=0,
            MaxAct=3, MaxTail=1, Ops=('add', 'own', 'rm'), AliasCreating=False, SpBlobByName=False, InvalidateDoomed=False,
-           LeakUnstored=False):
+           LeakUnstored=False, AddBeforeJoin=False, ImportNotCreating=False):
     return dict(Obj=tuple(Obj), Blobs=tuple(Blobs), Val=tuple(Val), Edges=Edges, Pre=tuple(Pre), MaxSp=MaxSp,
                 MaxCommit=MaxCommit, MaxOther=MaxOther, MaxAct=MaxAct, MaxTail=MaxTail, Ops=tuple(Ops),
                 AliasCreating=AliasCreating, SpBlobByName=SpBlobByName, InvalidateDoomed=InvalidateDoomed,
-                LeakUnstored=LeakUnstored)
+                LeakUnstored=LeakUnstored, AddBeforeJoin=AddBeforeJoin, ImportNotCreating=ImportNotCreating)
 
 
 def tla_consts(c):
@@ -81,7 +83,8 @@ def tla_consts(c):
             'Pre': '<- ' + PRE[tuple(c['Pre'])], 'MaxSp': c['MaxSp'], 'MaxCommit': c['MaxCommit'], 'MaxOther': c['MaxOther'],
             'MaxAct': c['MaxAct'], 'MaxTail': c['MaxTail'], 'Ops': s(c['Ops']),
             'AliasCreating': b(c['AliasCreating']), 'SpBlobByName': b(c['SpBlobByName']),
-            'InvalidateDoomed': b(c['InvalidateDoomed']), 'LeakUnstored': b(c['LeakUnstored'])}
+            'InvalidateDoomed': b(c['InvalidateDoomed']), 'LeakUnstored': b(c['LeakUnstored']),
+            'AddBeforeJoin': b(c.get('AddBeforeJoin')), 'ImportNotCreating': b(c.get('ImportNotCreating'))}
 
 
 # ------------------------------------------------------------------ concretisation of objects
@@ -277,6 +280,59 @@ class RM:
         return _NoopSavepoint()
 
 
+class Blocked(BaseException):
+    """a call that must return did not (a commit lock left held by an earlier failed commit)"""
+
+
+class deadline:
+    """watchdog around a real call (main thread of the process): SIGALRM interrupts a blocked lock.acquire()"""
+
+    def __init__(self, what, seconds=None):
+        self.what = what
+        self.seconds = seconds or WATCHDOG_S
+
+    def _fire(self, *_a):
+        raise Blocked(self.what)
+
+    def __enter__(self):
+        import signal
+        import threading
+        self.armed = threading.current_thread() is threading.main_thread()
+        if self.armed:
+            self.old = signal.signal(signal.SIGALRM, self._fire)
+            signal.setitimer(signal.ITIMER_REAL, self.seconds)
+
+    def __exit__(self, et, ev, tb):
+        import signal
+        if self.armed:
+            signal.setitimer(signal.ITIMER_REAL, 0)
+            signal.signal(signal.SIGALRM, self.old)
+        if et is Blocked:
+            raise Mismatch('call.blocked', 'returns', '%s blocked for more than %ss' % (self.what, self.seconds))
+        return False
+
+
+_EXPORT = {}
+
+
+def export_bytes(v):
+    """an export file (ZEXP) holding one PersistentMapping with value v, made by a throw-away database"""
+    if v not in _EXPORT:
+        from ZODB.MappingStorage import MappingStorage
+        db = ZODB.DB(MappingStorage())
+        tm = transaction.TransactionManager()
+        c = db.open(tm)
+        m = SHAPES['map'].new(v)
+        c.root()['x'] = m
+        tm.commit()
+        f = io.BytesIO()
+        c.exportFile(m._p_oid, f)
+        _EXPORT[v] = f.getvalue()
+        c.close()
+        db.close()
+    return _EXPORT[v]
+
+
 class HookDict(dict):
     """Connection._readCurrent with a tap on pop(): `self._readCurrent.pop(oid, None)` runs right after
     `self._cache[oid] = obj` in _store_objects."""
@@ -344,6 +400,7 @@ class ConnReplayer:
         self.snaps = []
         self.calls = {}
         self.last_exc = None
+        self.in_commit = False
 
     def _make_storage(self):
         blobs = bool(self.c['Blobs'])
@@ -600,6 +657,15 @@ class ConnReplayer:
         if pub:
             self.tm2.begin()
             p['pub'] = {n: self.public(n) for n in self.names}
+        if not self.in_commit:
+            # outside a commit nobody holds the storage's commit lock (a failed commit must have given it back)
+            lock = getattr(self.storage, '_commit_lock', None)
+            if lock is not None and hasattr(lock, 'acquire'):
+                if lock.acquire(False):
+                    lock.release()
+                    p['lock'] = 'free'
+                else:
+                    p['lock'] = 'held'
         return p
 
     def last_txn(self):
@@ -658,6 +724,8 @@ class ConnReplayer:
         if 'pub' in p:
             for n in self.names:
                 eq('obs.pub', norm_state(st['obs']['pub'][n]), p['pub'][n])
+        if 'lock' in p:
+            eq('storage.commit_lock', 'free', p['lock'])
         if hist_grew:
             w = st['hist'][-1]['w']
             want = {str(n): (dict(BLOBREC) if str(n) in blobs else norm_state(s)) for n, s in w.items() if s['v'] != 'absent'}
@@ -754,7 +822,8 @@ class ConnReplayer:
         self.tm2.begin()
         o2 = self.c2.get(self.objs[o]._p_oid)
         shape_of_class(type(o2)).set_v(o2, 'vo')
-        self.tm2.commit()
+        with deadline('commit of the second connection'):
+            self.tm2.commit()
         self.tids.append(self.storage.lastTransaction())
 
     def _join_rms(self):
@@ -770,15 +839,51 @@ class ConnReplayer:
         self.rm_before.fail = 'tpc_begin'
         self._commit_expect_failure()
 
-    def _commit_expect_failure(self):
+    def _commit_expect_failure(self, also=()):
         dead = self._drop_savepoints()
         try:
-            self.tm1.commit()
-        except (Injected, ConflictError) as e:
+            with deadline('commit'):
+                self.tm1.commit()
+        except (Injected, ConflictError) + tuple(also) as e:
             self.last_exc = e
         else:
             raise Mismatch('commit.outcome', 'raises', 'returned')
         self._check_dead(dead)
+
+    def do_BeginFails(self, st):
+        """the storage refuses tpc_begin: a transaction description longer than 65535 bytes (FileStorage)"""
+        from ZODB.POSException import StorageError
+        if self.kind != 'file':
+            raise RuntimeError('BeginFails needs a storage that refuses long metadata (file), not %s' % self.kind)
+        self._join_rms()
+        self.tm1.get().note('x' * 70000)
+        self._commit_expect_failure(also=(StorageError,))
+        if not isinstance(self.last_exc, StorageError):
+            raise Mismatch('commit.outcome', 'StorageError', type(self.last_exc).__name__)
+
+    def do_AddWhileFailed(self, o, st):
+        """a failing commit, Connection.add(o) before the abort, then the abort"""
+        from transaction.interfaces import TransactionFailedError
+        self._join_rms()
+        self.rm_before.fail = 'tpc_begin'
+        self._commit_expect_failure()
+        try:
+            self.c1.add(self.objs[o])
+        except TransactionFailedError:
+            pass
+        else:
+            raise Mismatch('add.outcome', 'TransactionFailedError', 'returned')
+        self.tm1.abort()
+
+    def do_ImportInTxn(self, o, st):
+        """Connection.importFile of a one-object export; the returned object takes the place of model object o"""
+        got = self.c1.importFile(io.BytesIO(export_bytes(self.c['Val'][0])))
+        if got is None:
+            raise Mismatch('import.outcome', 'an object', None)
+        self.by_id.pop(id(self.objs[o]), None)
+        self.objs[o] = got
+        self.shape[o] = SHAPES['map']
+        self.by_id[id(got)] = o
 
     def after_failure(self):
         """the caller's duty after a failed commit; a stutter for the specification"""
@@ -838,13 +943,16 @@ class ConnReplayer:
                 return real_store(oid, *a, **kw)
             inst.store = failing_store
         dead = self._drop_savepoints()
+        self.in_commit = True
         try:
             if end == 'Finish':
-                self.tm1.commit()
+                with deadline('commit'):
+                    self.tm1.commit()
                 self.tids.append(self.storage.lastTransaction())
             else:
                 try:
-                    self.tm1.commit()
+                    with deadline('commit'):
+                        self.tm1.commit()
                 except Injected as e:
                     self.last_exc = e
                     if end in ('StoreConflict', 'CommitSpConflict'):
@@ -862,6 +970,7 @@ class ConnReplayer:
         except Exception as e:
             raise Mismatch('commit.outcome', end, '%s: %s' % (type(e).__name__, e))
         finally:
+            self.in_commit = False
             self.c1._readCurrent.tap = None
             inst.__dict__.pop('store', None)
             if poisoned is not None:
@@ -913,6 +1022,9 @@ def role(st, o):
         r.append('uncached')
     if not x['own']:
         r.append('unowned')
+    if (x['own'] and st['tmp']['on'] and st['tmp']['index'][o]['v'] != 'absent' and st['tmp']['cre'].get(o, '-') == '-'
+            and st['obs']['pub'][o]['v'] == 'absent'):
+        r.append('imported')          # written into the savepoint store by importFile, in no creating map
     return '+'.join(r) or 'plain'
 
 
@@ -984,7 +1096,7 @@ def run_path(rp, steps, result, strict=True):
             proj = rp.do(act, s['args'], s['state'])
             if not check(i, proj):
                 return False
-            if act == 'FailBeforeBegin':
+            if act in IDLE_FAILURES:
                 rp.after_failure()
                 rp.compare(s['state'], rp.project())
         except Mismatch as m:
